@@ -1,7 +1,9 @@
 """C13 — extraction results do not depend on scheduling; worker errors reach the caller."""
 import io
 import itertools
+import json
 import os
+import zlib
 import shutil
 import tempfile
 import threading
@@ -244,6 +246,68 @@ def _moved_cwd(job):
     os.chdir("/")
     shutil.rmtree(other, ignore_errors=True)
     return raised, got
+
+
+def _dup_names(job):
+    """members with equal names (one folder each) plus a member literally named like the alias of a duplicate"""
+    path, mode, big = job
+    import py7zr
+    dest = tempfile.mkdtemp(prefix="verif_c13u_")
+    raised = None
+    try:
+        if mode == "sequential":
+            with open(path, "rb") as f, py7zr.SevenZipFile(f, "r") as z:
+                z.extractall(dest)
+        else:
+            with py7zr.SevenZipFile(path, "r", mp=(mode == "processes")) as z:
+                z.extractall(dest)
+    except Exception as e:  # noqa
+        raised = type(e).__name__
+    got = {}
+    for dp, _, fn in os.walk(dest):
+        for n in fn:
+            b = open(os.path.join(dp, n), "rb").read()
+            got[os.path.relpath(os.path.join(dp, n), dest)] = (len(b), zlib.crc32(b))
+    shutil.rmtree(dest, ignore_errors=True)
+    return raised, got
+
+
+def _big_error(job):
+    """processes: a worker's error message is larger than a pipe buffer (a 60000-character member name in a CrcError)"""
+    path, mp = job
+    import py7zr
+    with py7zr.SevenZipFile(path, "r", mp=mp) as z:
+        r = z.testzip()
+    return None if r is None else len(r)
+
+
+def _two_damaged(job):
+    """testzip() on an archive with TWO damaged folders, the workers started so that the later folder fails first"""
+    path, mode, late_first = job
+    import py7zr
+    import py7zr.py7zr as impl
+    if mode == "sequential":
+        with open(path, "rb") as f, py7zr.SevenZipFile(f, "r") as z:
+            return z.testzip()
+    with py7zr.SevenZipFile(path, "r") as z0:
+        pos = z0.header.main_streams.packinfo.packpositions
+        start0 = z0.worker.src_start
+    order = {start0 + p: i for i, p in enumerate(pos[:-1])}
+    n = len(order)
+    orig = impl.Worker.extract_single
+
+    def wrapped(self, fp, files, path_, src_start, src_end, q, exc_q=None, skip_notarget=True):
+        if exc_q is not None and src_start in order:
+            i = order[src_start]
+            time.sleep(0.15 * ((n - i) if late_first else i))
+        return orig(self, fp, files, path_, src_start, src_end, q, exc_q, skip_notarget)
+
+    impl.Worker.extract_single = wrapped
+    try:
+        with py7zr.SevenZipFile(path, "r", mp=(mode == "processes")) as z:
+            return z.testzip()
+    finally:
+        impl.Worker.extract_single = orig
 
 
 def _shared_dir(job):
@@ -680,6 +744,83 @@ def run(ctx):
             elif val[0] is not None or val[1] != want:
                 ctx.fail("C13:mode_dependent_output", "%s: after a change of working directory the open archive no longer extracts (%s, %d of %d members right)"
                          % (conf["mode"], val[0], sum(1 for n in want if val[1].get(n) == want[n]), len(want)), conf)
+
+        # a worker error that does not fit a pipe buffer
+        import py7zr
+        bpath = os.path.join(tmp, "bigerr.7z")
+        longname = "\u3042" * 60000
+        with py7zr.SevenZipFile(bpath, "w", filters=[{"id": py7zr.FILTER_COPY}]) as z:
+            z.writestr(b"first folder is fine " * 10, "ok.bin")
+        marker = b"SECOND-FOLDER-PAYLOAD" * 8
+        with py7zr.SevenZipFile(bpath, "a", filters=[{"id": py7zr.FILTER_COPY}]) as z:
+            z.writestr(marker, longname)
+        raw = bytearray(open(bpath, "rb").read())
+        pos = bytes(raw).find(marker)
+        raw[pos + 5] ^= 0x01
+        open(bpath, "wb").write(bytes(raw))
+        for mp, (st, val) in zip((False, True), sandbox.pmap(_big_error, [(bpath, False), (bpath, True)], timeout=40, workers=2)):
+            conf = {"mode": "processes" if mp else "threads", "call": "testzip()", "damaged": "second folder (CRC)", "member_name_length": 60000}
+            ctx.case(key=("big-error", mp), nontrivial=True, sample=conf)
+            if st == "timeout":
+                ctx.fail("C13:worker_error_lost", "%s: testzip() never returns when the failing member's name makes the worker's error larger than a pipe buffer" % conf["mode"], conf)
+            elif st != "ok":
+                ctx.fail("C13:big_error_" + st, "testzip() did not complete: %s" % str(val)[:200], conf)
+            elif val != 60000:
+                ctx.fail("C13:worker_error_lost", "%s: testzip() does not name the damaged member (returned %r)" % (conf["mode"], val), conf)
+
+        # two damaged folders: the verdict names the same member whichever worker fails first
+        tpath = os.path.join(tmp, "twodmg.7z")
+        tnames = ["f0.bin", "f1.bin", "f2.bin"]
+        for i, nm in enumerate(tnames):
+            with py7zr.SevenZipFile(tpath, "w" if i == 0 else "a", filters=[{"id": py7zr.FILTER_COPY}]) as z:
+                z.writestr((b"PAYLOAD-%d-" % i) * 40, nm)
+        raw = bytearray(open(tpath, "rb").read())
+        for i in (0, 2):
+            raw[bytes(raw).find(b"PAYLOAD-%d-" % i) + 3] ^= 0x01
+        open(tpath, "wb").write(bytes(raw))
+        tjobs = [(tpath, "sequential", False)] + [(tpath, m, lf) for m in ("threads", "processes") for lf in (False, True)]
+        tres = sandbox.pmap(_two_damaged, tjobs, timeout=120, workers=5)
+        verdicts = {}
+        for (_, m, lf), (st, val) in zip(tjobs, tres):
+            conf = {"mode": m, "damaged": ["f0.bin", "f2.bin"], "later_folder_fails_first": lf, "call": "testzip()"}
+            ctx.case(key=("two-damaged", m, lf), nontrivial=True, sample=conf)
+            if st != "ok":
+                ctx.fail("C13:two_damaged_" + st, "testzip() did not complete: %s" % str(val)[:200], conf)
+                continue
+            verdicts[(m, lf)] = val
+            if val not in ("f0.bin", "f2.bin"):
+                ctx.fail("C13:worker_error_lost", "%s: testzip() on an archive with two damaged folders returned %r" % (m, val), conf)
+        if len(set(verdicts.values())) > 1:
+            ctx.fail("C13:schedule_dependent_output", "testzip() names a different member depending on which worker fails first: %s"
+                     % {"%s/%s" % k: v for k, v in verdicts.items()}, {"damaged": ["f0.bin", "f2.bin"], "verdicts": {"%s/%s" % k: v for k, v in verdicts.items()}})
+
+        # duplicate member names, one folder each, and a member literally named like a duplicate's alias: whatever the
+        # aliases are, every mode gives the same files with the same bytes, and no member's bytes are lost to another
+        import py7zr
+        for order in (["a.txt", "a.txt", "a.txt_0"], ["a.txt", "a.txt_0", "a.txt"], ["a.txt_0", "a.txt", "a.txt", "a.txt"]):
+            upath = os.path.join(tmp, "dup_%d.7z" % len(order + [x for x in order if x.endswith("_0")]) + str(order.index("a.txt_0")))
+            datas = []
+            for i, nm in enumerate(order):
+                d = (bytes([65 + i]) * (3_000_000 if i < 2 else 10))
+                datas.append(d)
+                with py7zr.SevenZipFile(upath, "w" if i == 0 else "a", filters=[{"id": py7zr.FILTER_COPY}]) as z:
+                    z.writestr(d, nm)
+            ures = sandbox.pmap(_dup_names, [(upath, m, None) for m in ("sequential", "threads", "processes")], timeout=120, workers=3)
+            outs = {}
+            for m, (st, val) in zip(("sequential", "threads", "processes"), ures):
+                conf = {"names": order, "mode": m, "layout": "one folder per member"}
+                ctx.case(key=("dup", tuple(order), m), nontrivial=True, sample=conf)
+                if st != "ok":
+                    ctx.fail("C13:dup_names_" + st, "extraction did not complete: %s" % str(val)[:200], conf)
+                    continue
+                outs[m] = val
+                delivered = sorted(v for v in val[1].values())
+                want = sorted((len(d), zlib.crc32(d)) for d in datas)
+                if val[0] is None and delivered != want:
+                    ctx.fail("C13:schedule_dependent_output", "%s: members with colliding output names: %d files for %d members, the bytes of %d member(s) are lost"
+                             % (m, len(delivered), len(want), len([w for w in want if w not in delivered])), dict(conf, files={k: v[0] for k, v in val[1].items()}))
+            if len(outs) == 3 and len({json.dumps([o[0], sorted(o[1].items())]) for o in outs.values()}) > 1:
+                ctx.fail("C13:mode_dependent_output", "the modes disagree on an archive with duplicate member names", {"names": order, "results": {m: {k: v[0] for k, v in o[1].items()} for m, o in outs.items()}})
 
         # workers meeting at the creation of a shared parent directory
         import py7zr
